@@ -233,7 +233,7 @@ class C15(CheckBase):
     def gen(self, ch: Choices, tier: str) -> dict:
         if tier == "thorough" and ch.coin(0.004):
             return self.gen_realproc(ch)
-        wl = ch.weighted([(4, "crash"), (3, "keys"), (3, "writers")], "wl")
+        wl = ch.weighted([(4, "crash"), (3, "keys"), (4, "writers")], "wl")
         block = ch.pick([0, 0, 64, 512, 512, 1024, 4096], "block")
         case = {"wl": wl, "block": block, "plan": {}, "snaps": []}
         if wl == "keys":
@@ -477,6 +477,15 @@ class C15(CheckBase):
         if k == 0:
             return {"kind": "random", "seed": ch.choose(1 << 30),
                     "p": ch.pick([0.05, 0.2, 0.5])}
+        if k < 8:
+            # change points at a task's n-th file-system call (position as
+            # a fraction of the measured number of calls of a writer)
+            d = 2 + ch.choose(3)
+            return {"kind": "pctacc",
+                    "prios": ch.shuffle(list(range(1, ntasks + 1))),
+                    "fracs": [[ch.choose(ntasks), ch.choose(100000) / 100000.0,
+                               ch.choose(100000) / 100000.0]
+                              for _ in range(d)]}
         d = 1 + ch.choose(3)
         return {"kind": "pct",
                 "prios": ch.shuffle(list(range(1, ntasks + 1))),
@@ -490,7 +499,10 @@ class C15(CheckBase):
         self.quiesce()
         log = EventLog()
         self._counts = None
-        if case.get("faults") and not case.get("_dry"):
+        needs_counts = case.get("faults") or any(
+            ph.get("sched", {}).get("kind") == "pctacc" and
+            "fracs" in ph["sched"] for ph in case.get("phases", ()))
+        if needs_counts and not case.get("_dry"):
             self._counts = self._dry_counts(case)
         world = World(log, plan={}, block=case.get("block", 4096), tag="c15")
         world.activate()
@@ -643,8 +655,33 @@ class C15(CheckBase):
         sched_sigs = []
 
         for phno, ph in enumerate(case["phases"]):
-            sched = Scheduler(make_policy(ph.get("sched", {"kind": "fifo"})),
-                              log, max_steps=50_000)
+            spec = ph.get("sched", {"kind": "fifo"})
+            if spec.get("kind") == "pctacc" and "fracs" in spec:
+                # the kind of call first (a lone rename as likely as one of
+                # eighty writes), then the occurrence within that kind
+                counts = self._counts or {}
+                pts = []
+                for fr in spec["fracs"]:
+                    t, kf, of = fr[0], fr[1], fr[2] if len(fr) > 2 else fr[1]
+                    pname = ph["procs"][t % len(ph["procs"])]["name"]
+                    kinds = counts.get(pname) or max(
+                        counts.values(), key=len, default=[])
+                    if not kinds:
+                        continue
+                    # steps around the moment an entry becomes visible to
+                    # others carry in-flight state: weight them threefold
+                    present = []
+                    for k_ in sorted(set(kinds)):
+                        present += [k_] * (3 if k_ in (
+                            "rename", "pyc", "load-read", "close") else 1)
+                    kind = present[min(int(kf * len(present)),
+                                       len(present) - 1)]
+                    idx = [i + 1 for i, k_ in enumerate(kinds) if k_ == kind]
+                    pts.append([t, idx[min(int(of * len(idx)), len(idx) - 1)],
+                                "fs"])
+                spec = {"kind": "pctacc", "prios": spec["prios"],
+                        "points": pts}
+            sched = Scheduler(make_policy(spec), log, max_steps=50_000)
             sched.on_switch = world.on_switch
             world.sched = sched
             procs: dict[str, object] = {}
@@ -879,11 +916,12 @@ class C15(CheckBase):
                 d = copy.deepcopy(c)
                 d["phases"][pi]["sched"] = {"kind": "fifo"}
                 yield d
-            if ph.get("sched", {}).get("kind") == "pct":
-                ch = ph["sched"].get("changes", [])
+            if ph.get("sched", {}).get("kind") in ("pct", "pctacc"):
+                key = "changes" if "changes" in ph["sched"] else "fracs"
+                ch = ph["sched"].get(key, [])
                 for j in range(len(ch)):
                     d = copy.deepcopy(c)
-                    del d["phases"][pi]["sched"]["changes"][j]
+                    del d["phases"][pi]["sched"][key][j]
                     yield d
             for qi in range(len(ph["procs"])):
                 if len(ph["procs"]) > 1:
